@@ -65,9 +65,14 @@ SuggestChain(a, s, w, n, env) ==
       CloseUpTo(j) == [a EXCEPT !.ops[s][w] = [i \in DOMAIN @ |-> IF \E q \in 1..j : unf[q] = i THEN [@[i] EXCEPT !.done = TRUE, !.err = TRUE] ELSE @[i]]]
   IN [j \in 1..Len(unf) |-> CloseUpTo(j)] \o FreshChain(CloseUpTo(Len(unf)), s, w, n, env)
 
+\* the check reaches the algorithm (it is neither refused nor answered from a stored operation); a recycled operation
+\* passes through ACTIVE even when the new verdict equals the old one
+EsReaches(a, s, t) ==
+  /\ StudyGuard(a, s) = None /\ Present(a, s, t) /\ a.trial[s][t].state \in Mutable
+  /\ ~(a.es[s][t] # Absent /\ (a.es[s][t].status = "ACTIVE" \/ (a.es[s][t].status = "DONE" /\ Recycle = "never")))
 EsChain(a, s, t, env) ==
   LET r == Apply(a, [rpc |-> "CheckEarlyStopping", s |-> s, t |-> t, env |-> env]) IN
-  IF r.st = a THEN <<>>
+  IF ~EsReaches(a, s, t) THEN <<>>
   ELSE LET active == [a EXCEPT !.es[s][t] = [status |-> "ACTIVE", stop |-> FALSE]] IN
        IF env.raise THEN <<active, r.st>> ELSE <<active, active, r.st>>      \* create/recycle; update_metadata; update op
 
